@@ -7,7 +7,12 @@ given to relocate_to_base - for low/high/straddling bases, with `.addrtab` last 
 flattened image (copy_flattened_data into a guard-banded buffer) is evaluated by the driver's own evaluator; a sample of
 sites is re-decoded here with GNU objdump / LLVM. jit mode: JitRuntime::add must install exactly the image relocated to the
 returned pointer; the code is then called and has to reach C functions of the driver (through `.addrtab` when they are
-more than 2 GiB away, through rel32 for stubs in JIT memory) with the right arguments."""
+more than 2 GiB away, through rel32 for stubs in JIT memory) with the right arguments.
+
+Round 11 additions: imm branches with prefixes/options in front of the opcode (67h jecxz/loop, hinted jcc, rex jmp/call);
+a target refused at emit time by one build while the other build encodes it is judged; mem[abs + index]; a label and
+reference sites in a section ordered behind .addrtab; embed_label of 1 and 2 bytes with bases 0/0x100/0x1000; x86-32
+[rip+disp] operands (RelToAbs with region size) and mod_rm()/mod_mr() accumulator moves."""
 import json
 
 from vlib import build, common
@@ -47,6 +52,25 @@ def run(tier, args):
     stats = {}
     c03.cross_check(chk, decode, stats)
 
+    new_dims = {
+        "c04_imm_branch_sites_with_prefix": "imm branches with a 67h / hint prefix",
+        "c04_imm_branch_sites_with_forced_rex": "rel32 jmp/call imm with a forced REX",
+        "c04_sites_through_addrtab_with_forced_rex": "jmp/call imm with a forced REX routed through .addrtab",
+        "c04_one_side_errors_examined": "targets refused at emit by one of the two builds",
+        "c04_emit_errors_judged_target_out_of_reach": "branches to an absolute target refused at emit time, judged against the distance",
+        "c04_mem_abs_with_index_sites": "mem[abs + index] sites evaluated",
+        "c04_references_behind_addrtab_evaluated": "reference sites in a section behind .addrtab",
+        "c04_sites_through_addrtab_negative_slot_displacement": ".addrtab slots reached with a negative displacement",
+        "c04_embed_label_1_or_2_bytes_verified": "embed_label of 1 or 2 bytes, verified",
+        "c04_embed_label_1_or_2_bytes_unrepresentable_reported": "embed_label of 1 or 2 bytes that cannot hold the address, reported",
+        "c04_x86_32_rip_form_verified": "x86-32 [rip+disp] operands",
+        "c04_mov_acc_with_mod_rm_option_verified_in_modrm_form": "mov acc,[abs] under mod_rm()/mod_mr() (ModRM form instead of moffs)",
+    }
+    if not args.replay and not chk.violations and args.scale >= 0.5:
+        dead = ["%s (%s)" % (k, v) for k, v in new_dims.items() if cnt.get(k, 0) == 0]
+        if dead:
+            raise common.HarnessError("dimensions that observed nothing in this run: %s" % "; ".join(dead))
+
     verified = sorted(c for c in classes if "unreachable-reported" not in c)
     reported = sorted(c for c in classes if "unreachable-reported" in c)
     inv = mx.get("jit_min_distance_of_addrtab_targets_bytes_inverted", 0)
@@ -73,6 +97,21 @@ def run(tier, args):
         "sites_through_addrtab": cnt.get("c04_sites_through_addrtab", 0),
         "known_vs_relocate_targets_compared": cnt.get("c04_known_vs_relocate_compared", 0),
         "known_vs_relocate_one_side_reports_error": cnt.get("c04_known_vs_relocate_one_side_reports_error", 0),
+        "emit_errors_judged": cnt.get("c04_emit_errors_judged", 0),
+        "emit_errors_judged_target_out_of_reach": cnt.get("c04_emit_errors_judged_target_out_of_reach", 0),
+        "one_side_emit_errors": {k[len("c04_one_side_error"):].lstrip("s_"): v for k, v in cnt.items() if k.startswith("c04_one_side_error")},
+        "imm_branch_sites_with_prefix": cnt.get("c04_imm_branch_sites_with_prefix", 0),
+        "imm_branch_sites_with_forced_rex": cnt.get("c04_imm_branch_sites_with_forced_rex", 0),
+        "sites_through_addrtab_with_forced_rex": cnt.get("c04_sites_through_addrtab_with_forced_rex", 0),
+        "sites_through_addrtab_negative_slot_displacement": cnt.get("c04_sites_through_addrtab_negative_slot_displacement", 0),
+        "mem_abs_with_index_sites": cnt.get("c04_mem_abs_with_index_sites", 0),
+        "references_behind_addrtab_section": cnt.get("c04_references_behind_addrtab_evaluated", 0),
+        "embed_label_1_or_2_bytes": {"verified": cnt.get("c04_embed_label_1_or_2_bytes_verified", 0),
+                                     "unrepresentable_reported": cnt.get("c04_embed_label_1_or_2_bytes_unrepresentable_reported", 0),
+                                     "programs_with_tiny_bases": cnt.get("c04_programs_with_small_fields_and_tiny_bases", 0)},
+        "x86_32_rip_form_verified": cnt.get("c04_x86_32_rip_form_verified", 0),
+        "mov_acc_with_mod_rm_option_verified_in_modrm_form": cnt.get("c04_mov_acc_with_mod_rm_option_verified_in_modrm_form", 0),
+        "late_references_after_flatten": cnt.get("c04_late_references_after_flatten", 0),
         "code_size_reduction_checked": cnt.get("c04_code_size_reduction_checked", 0),
         "jit_programs": cnt.get("jit_programs", 0),
         "jit_programs_called": cnt.get("jit_programs_called", 0),
@@ -92,8 +131,13 @@ def run(tier, args):
         "ASan/UBSan instrumented static build of /repo's working tree; expected targets are computed from offset() snapshots, "
         "Section::offset() after flatten() and the base address; flatten()/relocate_to_base() are called once per CodeHolder (as documented)",
         "x86-32: addresses are taken modulo 2^32; a 4-byte absolute field whose value passes 2^32 may be reported or wrap",
-        "an emit-time or relocate-time error for a reachable target is not a violation (counted); adrp imm between 2 and 4 GiB away is "
-        "refused by relocate_to_base although encodable - reported, hence not flagged",
+        "an emit-time error for a jmp/call/jcc/jecxz/loop/AArch64 branch to an absolute target is a violation unless the base is known and no "
+        "form of the instruction reaches the target from its site (without a known base the reference is a relocation: nothing to refuse); also "
+        "when the other build (base known | base at relocation) encodes the same target and the distance fits that form; not judged: "
+        "adrp (the direct path demands a page-aligned target, the relocation does not), mem[abs]/moffs (the addressing mode depends on a "
+        "known base by design); adrp imm between 2 and 4 GiB away is refused by relocate_to_base although encodable - reported, not flagged",
+        "mem[abs + index]: the displacement must designate the address for index 0 (sign-extended disp32; with a 32-bit index the sum wraps "
+        "at 2^32, so zero-extended addresses and negative displacements are both accepted)",
         "RelocationSummary.code_size_reduction is judged by what JitRuntime needs from it: it equals what the address table gave back and "
         "estimated - reduction still covers every section (code_size() itself is C10's subject)",
         "native calls run on the x86-64 host only; AArch64 and x86-32 absolute references are evaluated statically",
